@@ -307,7 +307,7 @@ def join(a, b):
     elif b_none and not a_none:
         norm, sign, shape, dtype = a.norm, a.sign, a.shape, a.dtype
     else:
-        norm = a.norm if a.norm == b.norm else ('RAW' if (a.norm or b.norm) else None)
+        norm = a.norm if a.norm == b.norm else ('LOST' if 'LOST' in (a.norm, b.norm) else ('RAW' if (a.norm or b.norm) else None))
         sign = join_sign(a.sign, b.sign)
         shape = a.shape.join(b.shape) if (a.shape is not None and b.shape is not None) else None
         dtype = a.dtype if a.dtype == b.dtype else None
@@ -805,6 +805,9 @@ class Evaluator:
             finally:
                 tm = self.temp_memos.pop()
             new = join(approx, nxt)
+            if nxt.meta == ('covered-store',):
+                # a buffer whose every block is overwritten in the loop (coverage folded): after the loop it holds what the iterations stored, not what it held before
+                new = nxt
             if new.key() == approx.key():
                 final = new
                 # values computed in the stable round are valid: keep them
@@ -1080,7 +1083,46 @@ class Evaluator:
         b = self.eval(base, ctx)
         v = self.eval(val, ctx)
         self.eval(idx, ctx)
-        return AV(kind=b.kind, deps=b.deps | v.deps, alias=b.alias, shape=b.shape, tup=None, dtype=b.dtype, obj=b.obj)
+        norm, meta = None, None
+        tracked_ = b.norm is not None or v.norm is not None
+        cov = getattr(t, 'extra', None)
+        if isinstance(cov, tuple) and cov and cov[0] == 'covers' and isinstance(v.norm, tuple) and isinstance(v.norm[1], int) and v.norm[1] < 0 and cov[1] != v.norm[1] \
+                and (cov[1] < 0 or v.norm[1] == -1):
+            # the pieces of np.array_split(x, n, axis=a), each normalised in place along another axis: together they are x
+            norm, meta = v.norm, ('covered-store',)
+        elif isinstance(v.norm, tuple) and isinstance(v.norm[1], int) and v.norm[1] < 0:
+            # blocks of an own buffer overwritten with unit-norm values, block by block along ANOTHER axis than the unit-norm one: the buffer is of unit norm afterwards when
+            # the blocks cover the whole axis (folded like R-COVER); otherwise some entries keep what was there - the typestate is lost (undecided at a sink), not RAW
+            items = list(idx.args[0]) if idx.op == 'tuple' else [idx]
+            ok_shape = len(items) >= 2 and items[0].op == 'const' and items[0].args[0] is Ellipsis and all(x.op == 'slice' for x in items[1:]) and -v.norm[1] <= len(items) - 1
+            if ok_shape:
+                unit_item = items[len(items) + v.norm[1]]
+                full = all(y.op == 'const' and y.args[0] is None for y in unit_item.args)
+                blocks = [x for x in items[1:] if not all(y.op == 'const' and y.args[0] is None for y in x.args)]
+                if full and len(blocks) == 1:
+                    from .opt import block_partition_verdict
+                    from .terms import walk_terms as _wt
+                    loops = [y for z in blocks[0].args if isinstance(z, T) for y in _wt(z, into_mu=False) if y.op == 'elem' and y.args and isinstance(y.args[0], T)]
+                    its = []
+                    for y in loops:
+                        if not any(y.args[0] is i_ for i_ in its):
+                            its.append(y.args[0])
+                    if len(its) == 1:
+                        verdict = block_partition_verdict(its[0], blocks[0])
+                        if verdict is not None and verdict[0] == 'full':
+                            norm, meta = v.norm, ('covered-store',)
+                elif full and not blocks and isinstance(b.norm, tuple) and b.norm == v.norm:
+                    norm = v.norm
+            if norm is None and isinstance(b.norm, tuple) and b.norm == v.norm:
+                norm = v.norm
+        deps = b.deps | v.deps
+        if meta == ('covered-store',):
+            deps = v.deps | frozenset(d for d in b.deps if d[0] != 'scale')          # nothing of the old content is left
+        if norm is None and tracked_:
+            norm = 'RAW' if (b.norm == 'RAW' and v.norm == 'RAW') else 'LOST'
+            if norm == 'LOST':
+                deps = deps | frozenset([('scale-lost', 'partly overwritten buffer')])
+        return AV(kind=b.kind, deps=deps, alias=b.alias, shape=b.shape, tup=None, dtype=b.dtype, obj=b.obj, norm=norm, meta=meta)
 
     def ev_sub(self, t, ctx):
         from . import nptable
